@@ -96,7 +96,7 @@ func c15Run(c *core.Ctx, long bool) {
 		copy(ref.st1, st[4:4+n2])
 		copy(ref.st9, st[4+n2:4+n2+n1])
 	}
-	out, err := Execute(run)
+	out, err := ExecuteFor(c, run)
 	if err != nil {
 		c.Violate("prepare", "GR4J", err.Error())
 		return
